@@ -16,7 +16,7 @@
                       where Go returns nil / an error and otherwise (Evaluate, BoundingBox) of the
                       struct it built, is the model's k_xxx object for object (argument checks,
                       pre-computed fields, closure, bounding box); wrapped SDFs are non-nil.
-   Not covered (loops): Union, Array, RotateUnion, RotateCopy, Revolve's constructor, the
+   Not covered (loops): Union, Array, RotateUnion, the constructors of RotateCopy, Revolve, Slice, the
    twisted extrusions' constructors, MinMaxDist2, VecSet.Min/Max; those stay tied by the sampled
    correspondence of C01/C02/C03/C16 only. *)
 From Coq Require Import ZArith List Bool.
@@ -491,6 +491,23 @@ Theorem TRANSL_Elongate2 : forall (O : Ops),
 Proof. exact (@Elongate2_eq). Qed.
 Print Assumptions TRANSL_Elongate2.
 
+Theorem TRANSL_P2ToV2 : forall (O : Ops),
+    forall r th : T O, conv_P2ToV2 (r, th) = mkV2 (r * ocos O th) (r * osin O th).
+Proof. exact (@P2ToV2_eq). Qed.
+Print Assumptions TRANSL_P2ToV2.
+
+Theorem TRANSL_RotateCopy2 : forall (O : Ops),
+    forall (s : Obj2 O) n o p, k_rotatecopy2 s n = Some o ->
+    sdf_RotateCopySDF2_Evaluate (ev2 s) (tau / ofZ O n) p = ev2 o p.
+Proof. exact (@RotateCopy2_eq). Qed.
+Print Assumptions TRANSL_RotateCopy2.
+
+Theorem TRANSL_Slice2 : forall (O : Ops),
+    forall (s : Obj3 O) a n o p, k_slice2 s a n = Some o ->
+    sdf_SliceSDF2_Evaluate (ev3 s) a (v3normalize (slice_u0 n)) (v3normalize (v3cross n (slice_u0 n))) p = ev2 o p.
+Proof. exact (@Slice2_eq). Qed.
+Print Assumptions TRANSL_Slice2.
+
 Theorem TRANSL_sdfBox3d : forall (O : Ops),
     forall p s : V3 O, sdf_sdfBox3d p s = sdf_box3d p s.
 Proof. exact (@sdfBox3d_eq). Qed.
@@ -611,6 +628,12 @@ Theorem TRANSL_Shell3 : forall (O : Ops),
     sdf_ShellSDF3_Evaluate (ev3 s) (k05 * thickness) p = ev3 o p.
 Proof. exact (@Shell3_eq). Qed.
 Print Assumptions TRANSL_Shell3.
+
+Theorem TRANSL_RotateCopy3 : forall (O : Ops),
+    forall (s : Obj3 O) n o p, k_rotatecopy3 s n = Some o ->
+    sdf_RotateCopySDF3_Evaluate (ev3 s) (tau / ofZ O n) p = ev3 o p.
+Proof. exact (@RotateCopy3_eq). Qed.
+Print Assumptions TRANSL_RotateCopy3.
 
 Theorem TRANSL_Circle2D_ctor : forall (O : Ops),
     forall radius : T O, option_map obj2_of (sdf_Circle2D radius) = k_circle radius.
